@@ -24,6 +24,7 @@ type HistStep struct {
 type stepReport struct {
 	Status          string `json:"status"`
 	EqualFresh      bool   `json:"equal_fresh"`
+	EqualRepeat     bool   `json:"equal_repeat"` // equal to the previous Run when that had the very same inputs
 	InputsUnchanged bool   `json:"inputs_unchanged"`
 	WeightsSame     bool   `json:"weights_unchanged"`
 	ProtoSame       bool   `json:"proto_unchanged"`
@@ -97,6 +98,7 @@ func historyCase(stream string, load func() (*gonnx.Model, error), desc any, ste
 		var prevIn gonnx.Tensors
 		var prevOut gonnx.Tensors
 		var reports []stepReport
+		prevOK := false
 		for _, st := range steps {
 			in := gonnx.Tensors{}
 			if st.Reuse && prevIn != nil {
@@ -167,6 +169,16 @@ func historyCase(stream string, load func() (*gonnx.Model, error), desc any, ste
 			} else {
 				rep.EqualFresh = true
 			}
+			// the same tensors once more: the previous result again, bit for bit (a fresh model in the same
+			// process cannot reveal state kept outside the Model)
+			rep.EqualRepeat = true
+			if st.Reuse && len(st.Inputs) == 0 && len(st.FeedFrom) == 0 && rerr == nil && prevOut != nil && prevOK {
+				if ok, d := sameOuts(out, prevOut); !ok {
+					rep.EqualRepeat = false
+					rep.Detail += " differs from the previous Run on the same inputs: " + d
+				}
+			}
+			prevOK = rerr == nil
 			rep.InputsUnchanged = true
 			for k, v := range in {
 				if d := diffSnap(0, snaps[k], snapshot(v)); len(d) > 0 {
@@ -198,6 +210,20 @@ func sampleModelLoader(name string) func() (*gonnx.Model, error) {
 }
 
 func genC02(e *emitter, tier string) {
+	// (0) before anything else has run in this process: graphs in which a node relying on attribute
+	// defaults precedes a node of the same type with explicit attributes; any state kept outside the
+	// Model (package level) shows as a second Run that differs from the first
+	for _, op := range []string{"RNN", "GRU", "LSTM"} {
+		G := map[string]int{"LSTM": 4, "GRU": 3, "RNN": 1}[op]
+		nact := map[string]int{"LSTM": 3, "GRU": 2, "RNN": 1}[op]
+		inits := []InitJ{{Name: "W", T: tinyT("f32", []int{1, G * 2, 3}, 1)}, {Name: "R", T: tinyT("f32", []int{1, G * 2, 2}, 2)}}
+		df := NodeJ{Op: op, Attrs: []Attr{{Name: "hidden_size", Type: "i", I: 2}}, Ins: []string{"x", "W", "R"}, Outs: []string{"Yd", "Yhd"}}
+		ex := NodeJ{Op: op, Attrs: []Attr{{Name: "hidden_size", Type: "i", I: 2}, {Name: "activations", Type: "strings", Ss: []string{"relu", "relu", "relu"}[:nact]}}, Ins: []string{"x", "W", "R"}, Outs: []string{"Ye", "Yhe"}}
+		g := &GraphJ{Inputs: []VInfoJ{{Name: "x", Dt: "f32", Dims: []any{"S", 2, 3}}}, Inits: inits, Nodes: []NodeJ{df, ex}, Outputs: []string{"Yd", "Yhd", "Ye", "Yhe"}}
+		x := NamedT{"x", fT("f32", []int{2, 2, 3}, []float64{0.5, -1, 0.25, 1, -0.5, 0.75, -0.25, 0.5, 1, -1, 0.5, 0.25})}
+		e.emit(historyCase("defaults-then-explicit:"+op, func() (*gonnx.Model, error) { return loadModel(g) }, g,
+			[]HistStep{{Inputs: []NamedT{x}}, {Reuse: true}, {Reuse: true}}))
+	}
 	// (a) operator-level purity: the operator streams of the other properties, sampled
 	type borrow struct {
 		prop  string
@@ -212,6 +238,15 @@ func genC02(e *emitter, tier string) {
 		e.onlyKinds = map[string]bool{"op": true, "bcast": true}
 		gens[b.prop](e, "quick")
 	}
+	// (a') the same streams, sampled, with every input of rank >= 2 handed over lazily transposed
+	// (a legal tensor.Tensor a caller may pass): only "the caller's tensors are left as they were" is judged
+	inputLayout = "lazy-transposed"
+	e.streamPrefix = "lazyT:"
+	for _, b := range bs {
+		e.every, e.seen = b.every*2, 0
+		gens[b.prop](e, "quick")
+	}
+	inputLayout, e.streamPrefix = "", ""
 	e.every, e.onlyKinds = 0, nil
 
 	// (b) histories on the sample models
